@@ -227,6 +227,23 @@ mut("normalize-drops-last-block-line", ["C05"], "code_data/_normalize.py",
     "    if isinstance(x, tuple):\n        return cast(T, tuple(map(normalize, x)))",
     "    if isinstance(x, tuple):\n        if len(x) > 40 and isinstance(x[0], Instruction):\n            return cast(T, tuple(map(normalize, x[:-1])) + (replace(normalize(x[-1]), line_number=normalize(x[-2]).line_number),))\n        return cast(T, tuple(map(normalize, x)))")
 
+# ---- C10
+# (collapse ">=127" -> ">127" is an equivalent mutant for C10: the unmerged piece round-trips as a zero-width entry)
+mut("linetable-min-line-128", ["C10"], "code_data/_line_mapping.py",
+    "    MIN_LINE = -127 if is_linetable else -128", "    MIN_LINE = -128 if is_linetable else -128")
+mut("linetable-max-bytecode-255", ["C10"], "code_data/_line_mapping.py",
+    "    MAX_BYTECODE = 254 if is_linetable else 255", "    MAX_BYTECODE = 255 if is_linetable else 255")
+mut("drop-emit-last-one", ["C10"], "code_data/_line_mapping.py",
+    "        if line_offset != 0 or bytecode_offset != 0 or not emitted_extra:", "        if line_offset != 0 or bytecode_offset != 0:")
+mut("final-linetable-entry-off-by-2", ["C10", "C01"], "code_data/_line_mapping.py",
+    "                    bytecode_offset=bytecode_offset\n                    + 2\n", "                    bytecode_offset=bytecode_offset\n                    + 4\n")
+mut("noline-continuation-zero", ["C10"], "code_data/_line_mapping.py",
+    "                if is_linetable and line_offset is not None:\n                    line_offset = 0", "                if is_linetable:\n                    line_offset = 0")
+mut("mixed-sign-merge", ["C10"], "code_data/_line_mapping.py",
+    "                or (item.line_offset > 0) == (prev_item.line_offset > 0)", "                or True")
+mut("signed-byte-off", ["C10"], "code_data/_line_mapping.py",
+    "                line_offset=int.from_bytes([b[i + 1]], \"big\", signed=True),", "                line_offset=b[i + 1] if b[i + 1] < 129 else b[i + 1] - 256,")
+
 
 def run_one(m, props_filter):
     name, props, file, old, new = m
